@@ -130,7 +130,34 @@ func ruleLayout(r *Report) {
 			fixed, _ := linConst(0).add(total, 1).isConst()
 			_ = fixed
 			hdr := offs[3]
+			// `it.pos = record.NextPos()` is the same advance when the record was read
+			// at it.pos and ReadRecord records that position in Record.Pos (NextPos is
+			// checked below).
+			readSetsPos := false
+			for _, ps := range fieldStores(read, "Record.Pos") {
+				if len(read.Params) > 1 && sameValue(ps.Val, read.Params[len(read.Params)-1]) {
+					readSetsPos = true
+				}
+			}
+			viaNextPos := func(v ssa.Value) bool {
+				c, ok := v.(*ssa.Call)
+				if !ok || c.Call.StaticCallee() != nextPos || len(c.Call.Args) == 0 || !readSetsPos {
+					return false
+				}
+				return derives(c.Call.Args[0], flowOpts{}, func(x ssa.Value) bool {
+					rc, ok := x.(*ssa.Call)
+					if !ok || rc.Call.StaticCallee() != read {
+						return false
+					}
+					a := rc.Call.Args
+					return fieldOfLoad(stripConv(a[len(a)-1])) == "RecordListIter.pos"
+				})
+			}
 			for _, st := range fieldStores(next, "RecordListIter.pos") {
+				if viaNextPos(st.Val) {
+					r.Ok(rule, "index-entry/iter-advance", instrPos(st), "the iterator advances to NextPos() of the record it read at its own position")
+					continue
+				}
 				l := env.lin(st.Val).add(linAtom("F:RecordListIter.pos"), -1)
 				r.Check(l.C == hdr && len(l.T) == 1, rule, "index-entry/iter-advance", instrPos(st), fmt.Sprintf("the iterator advances by %d + len(key)", hdr), fmt.Sprintf("the record-list iterator advances by [%s], the writer emits %d + len(key) bytes per entry", l, hdr))
 			}
